@@ -77,6 +77,8 @@ def main(ctx):
     import falcon.asgi
     from falcon import testing
     model = common.Model(ctx)
+    for o in common.corpus('C20'):
+        replay(ctx, o)
     space = list(itertools.product(ALLOW_ORIGINS, EXPOSE, ALLOW_CREDS, ORIGINS, METHODS, ACRM, ACRH,
                                    range(len(PRE)), [True, False]))
     ctx.cov['rule'] = ('cells of the product allow_origins x expose x allow_credentials x Origin x method x '
@@ -142,6 +144,27 @@ def main(ctx):
 
 
 disagreements = []
+
+
+def replay(ctx, obj):
+    """Re-run one recorded cell (direct form) on the current implementation."""
+    import falcon
+    from falcon import testing
+    if 'cell' not in obj:
+        return main(ctx)
+    ao, ex, ac, origin, method, acrm, acrh, pi, succ = obj['cell']
+    pre = obj.get('pre') or PRE[pi]
+    model = common.Model(ctx)
+    r = impl_direct(falcon, testing, (ao, ex, ac), (origin, method, acrm, acrh), pre, succ)
+    ctx.note_case('replay', True)
+    ctx.note_case('replay2', True)
+    ctx.sample({'replayed': obj['cell'], 'impl': r})
+    if r == 'ValueError':
+        return
+    f = model.run([2, wire_cfg(ao, ex, ac), wire_req(origin, method, acrm, acrh), wire_headers(pre), succ,
+                   wire_headers(r)])
+    if f[0] == 1 and f[1]:
+        ctx.violation('cors-clause-violated', {'cell': obj['cell'], 'pre': pre, 'impl': r, 'clauses_failed': f[1]})
 
 
 # ------------------------------------------------------------------ end to end
